@@ -13,14 +13,19 @@ Proof.
   split; [apply (css_scan_cut _ rest); assumption|]. split; assumption.
 Qed.
 
-(* the token types whose shape is characterised here; the others (names, numbers, strings, urls, unicode-range) are not *)
+(* the token types whose shape is characterised here; the others (names, dimensions, strings, urls) are not *)
 Definition shaped (ty : ttype) : bool :=
   match ty with
-  | TWhitespace | TComment | TDelim
+  | TWhitespace | TComment | TDelim | TNumber | TPercentage | TUnicodeRange
   | TColon | TSemicolon | TComma | TLeftParenthesis | TRightParenthesis | TLeftBracket | TRightBracket | TLeftBrace | TRightBrace
   | TIncludeMatch | TDashMatch | TPrefixMatch | TSuffixMatch | TSubstringMatch | TColumn | TCDO | TCDC => true
   | _ => false
   end.
+
+Definition ur_shape (t : list Z) : Prop :=
+  (exists u h q, t = u :: 43 :: h ++ q /\ (u = 117 \/ u = 85) /\ all_b is_hex h /\ all_b is_qmark q /\ 1 <= len h + len q <= 6) \/
+  (exists u h1 h2, t = u :: 43 :: h1 ++ 45 :: h2 /\ (u = 117 \/ u = 85) /\ all_b is_hex h1 /\ 1 <= len h1 <= 6 /\
+                   all_b is_hex h2 /\ 1 <= len h2 <= 6).
 
 (* the shapes: tok_spec's constructor bodies without the follower conditions *)
 Definition tok_shape (ty : ttype) (b : list Z) : Prop :=
@@ -28,6 +33,9 @@ Definition tok_shape (ty : ttype) (b : list Z) : Prop :=
   | TWhitespace => b <> [] /\ all_b is_ws b
   | TComment => exists body, no_close body = true /\ (b = 47 :: 42 :: body ++ [42; 47] \/ b = 47 :: 42 :: body)
   | TDelim => exists c, b = [c]
+  | TNumber => num_text b
+  | TPercentage => exists t, b = t ++ [37] /\ num_text t
+  | TUnicodeRange => ur_shape b
   | _ => if shaped ty then In (ty, b) fixed_tokens else True
   end.
 
@@ -72,9 +80,6 @@ Qed.
 Lemma pos_tok_free t n : shaped t = false -> free_or_delim (fst (pos_tok t n)) (snd (pos_tok t n)).
 Proof. intros H. unfold pos_tok. destruct (0 <? n); cbn [fst snd]; [left; exact H|right; split; reflexivity]. Qed.
 
-Lemma numeric_free l r : consume_numeric l = Some r -> is_err (fst r) = true \/ shaped (fst r) = false.
-Proof. destruct r as [t n]. intros H. destruct (consume_numeric_ty _ _ _ H) as [->|[->|[->| ->]]]; cbn; auto. Qed.
-
 Lemma string_free l r : consume_string l = Some r -> is_err (fst r) = true \/ shaped (fst r) = false.
 Proof. destruct r as [t n]. intros H. destruct (consume_string_ty _ _ _ H) as [->| ->]; cbn; auto. Qed.
 
@@ -109,6 +114,141 @@ Ltac res H Hn := apply Some_pair_inj in H; destruct H as [<- Hn].
 Ltac nil_of b Hn := assert (b = []) by (apply len0_nil; rewrite ?len_cons in Hn; pose proof (len_nonneg b); lia); subst b.
 Ltac free_case H := apply free_shape; [apply (free_res _ _ _ H)|assumption|assumption].
 
+(* --- numbers ------------------------------------------------------------------------------------------------- *)
+Lemma scan_while_split P : forall l n, scan_while P l = Some n ->
+  exists a c r, l = a ++ c :: r /\ len a = n /\ all_b P a /\ P c = false.
+Proof.
+  induction l as [|c t IH]; intros n H; [discriminate|]. rewrite scan_while_cons in H.
+  destruct (P c) eqn:Pc.
+  - destruct (scan_while P t) as [m|] eqn:Em; [|discriminate]. apply Some_inj in H. subst n.
+    destruct (IH m eq_refl) as (a & c' & r & -> & Hl & Ha & Hc). exists (c :: a), c', r.
+    split; [reflexivity|]. split; [rewrite len_cons; lia|]. split; [constructor; assumption|assumption].
+  - apply Some_inj in H. subst n. exists [], c, t. repeat split; [constructor|assumption].
+Qed.
+
+Lemma peekz0_cons l c : peekz l 0 = Some c -> exists t, l = c :: t.
+Proof. destruct l as [|x t]; [discriminate|]. rewrite peekz_0. intros H. apply Some_inj in H. subst. eauto. Qed.
+
+Lemma number_exp_inv n0 l n : number_exp n0 l = Some n ->
+  exists ex r, l = ex ++ r /\ n = n0 + len ex /\ exp_text ex.
+Proof.
+  unfold number_exp. intros H. bind_inv H. destruct (peekz0_cons _ _ E) as (l' & ->).
+  assert (Hnone : exists ex r, x :: l' = ex ++ r /\ n0 = n0 + len ex /\ exp_text ex).
+  { exists [], (x :: l'). split; [reflexivity|]. split; [change (len (@nil Z)) with 0; lia|constructor]. }
+  destruct ((x =? 101) || (x =? 69)) eqn:Ee; [|apply Some_inj in H; subst n; exact Hnone].
+  bind_inv H. rewrite peekz_1 in E0. destruct (peekz0_cons _ _ E0) as (l2 & ->).
+  bind_inv H. destruct (x1 =? 0) eqn:Ed; [apply Some_inj in H; subst n; exact Hnone|]. apply Some_inj in H. subst n.
+  unfold digits in E1. destruct (is_sign x0) eqn:Es.
+  - change (1 + 1) with 2 in E1. rewrite skipz_2 in E1.
+    destruct (scan_while_split _ _ _ E1) as (ed & c & r & -> & Hl & Hall & Hc).
+    exists (x :: [x0] ++ ed), (c :: r). split; [reflexivity|]. split; [rewrite len_cons, len_app, len_cons; change (len (@nil Z)) with 0; lia|].
+    apply Exp_some; [lia| |exact Hall|intros ->; change (len (@nil Z)) with 0 in Hl; lia].
+    unfold is_sign in Es. right. destruct (x0 =? 43) eqn:E43; [left; f_equal; lia|right; f_equal; lia].
+  - change (1 + 0) with 1 in E1. rewrite skipz_1 in E1.
+    destruct (scan_while_split _ _ _ E1) as (ed & c & r & Hd & Hl & Hall & Hc).
+    exists (x :: [] ++ ed), (c :: r). split; [cbn [app]; f_equal; exact Hd|]. split; [rewrite len_cons; cbn [app]; lia|].
+    apply Exp_some; [lia|left; reflexivity|exact Hall|intros ->; change (len (@nil Z)) with 0 in Hl; lia].
+Qed.
+
+Lemma number_token_inv l n : consume_number_token l = Some n -> 0 < n ->
+  exists t r, l = t ++ r /\ len t = n /\ num_text t.
+Proof.
+  unfold consume_number_token. intros H Hn. bind_inv H. destruct (peekz0_cons _ _ E) as (l' & ->).
+  set (s := if is_sign x then 1 else 0) in *.
+  assert (Hsg : exists sg l1, x :: l' = sg ++ l1 /\ skipz s (x :: l') = l1 /\ len sg = s /\ sign_text sg).
+  { subst s. destruct (is_sign x) eqn:Es.
+    - exists [x], l'. split; [reflexivity|]. split; [apply skipz_1|]. split; [reflexivity|].
+      unfold is_sign in Es. right. destruct (x =? 43) eqn:E43; [left; f_equal; lia|right; f_equal; lia].
+    - exists [], (x :: l'). split; [reflexivity|]. split; [apply skipz_0|]. split; [reflexivity|left; reflexivity]. }
+  destruct Hsg as (sg & l1 & Hl & Hsk & Hls & Hsgt). rewrite Hsk in H. rewrite Hl. clearbody s. clear Hl Hsk E.
+  bind_inv H. unfold digits in E. destruct (scan_while_split _ _ _ E) as (ip & c2 & r2 & -> & Hlip & Hip & Hc2).
+  assert (Hsk2 : skipz x0 (ip ++ c2 :: r2) = c2 :: r2) by (rewrite <- Hlip; apply skipz_len_app). rewrite Hsk2 in H. rewrite peekz_0 in H. cbn [option_bind] in H.
+  destruct (c2 =? 46) eqn:E46.
+  - cbn [tl] in H. bind_inv H. unfold digits in E0. destruct (scan_while_split _ _ _ E0) as (fd & c3 & r3 & -> & Hlfd & Hfd & Hc3).
+    assert (c2 = 46) by lia. subst c2.
+    destruct (0 <? x1) eqn:Ed2.
+    + rewrite skipz_cons in H by lia. replace (1 + x1 - 1) with (len fd) in H by lia. rewrite skipz_len_app in H.
+      destruct (number_exp_inv _ _ _ H) as (ex & r & Hr & Hnn & Hex).
+      assert (Hfdne : fd <> []) by (intros ->; change (len (@nil Z)) with 0 in Hlfd; lia).
+      exists (sg ++ ip ++ frac fd ++ ex), r. split.
+      * destruct fd as [|f fd']; [congruence|]. cbn [frac]. rewrite Hr. repeat rewrite <- app_assoc. cbn [app]. repeat rewrite <- app_assoc. reflexivity.
+      * split; [|constructor; auto].
+        destruct fd as [|f fd']; [congruence|]. cbn [frac]. repeat rewrite ?len_app, ?len_cons. rewrite len_cons in Hlfd. lia.
+    + assert (fd = []) by (apply len0_nil; pose proof (len_nonneg fd); lia). subst fd. destruct (0 <? x0) eqn:Ed1; [|apply Some_inj in H; lia].
+      apply Some_inj in H. subst n. exists (sg ++ ip ++ frac [] ++ []), (46 :: c3 :: r3). split.
+      * cbn [frac app]. rewrite app_nil_r. repeat rewrite <- app_assoc. reflexivity.
+      * split; [cbn [frac app]; rewrite app_nil_r, len_app; lia|]. apply (NumT sg ip [] []); [assumption|assumption|constructor| |constructor].
+        left. intros ->. change (len (@nil Z)) with 0 in Hlip. lia.
+  - destruct (x0 =? 0) eqn:Ed1; [apply Some_inj in H; lia|].
+    destruct (number_exp_inv _ _ _ H) as (ex & r & Hr & Hnn & Hex).
+    exists (sg ++ ip ++ frac [] ++ ex), r. split.
+    + cbn [frac app]. rewrite Hr. repeat rewrite <- app_assoc. reflexivity.
+    + split; [cbn [frac app]; rewrite !len_app; lia|]. apply (NumT sg ip [] ex); [assumption|assumption|constructor| |assumption].
+      left. intros ->. change (len (@nil Z)) with 0 in Hlip. lia.
+Qed.
+
+Lemma app_len_inj {A} : forall (a b x y : list A), a ++ x = b ++ y -> len a = len b -> a = b /\ x = y.
+Proof.
+  induction a as [|h a IH]; intros [|k b] x y H Hl; cbn [app] in H.
+  - auto.
+  - rewrite len_cons in Hl. change (len (@nil A)) with 0 in Hl. pose proof (len_nonneg b). lia.
+  - rewrite len_cons in Hl. change (len (@nil A)) with 0 in Hl. pose proof (len_nonneg a). lia.
+  - injection H as -> H. rewrite !len_cons in Hl. destruct (IH b x y H) as [-> ->]; [lia|]. auto.
+Qed.
+
+Lemma numeric_shape b ty : consume_numeric (b ++ [0]) = Some (ty, len b) -> ty = TNumber \/ ty = TPercentage -> tok_shape ty b.
+Proof.
+  unfold consume_numeric. intros H Hty. bind_inv H. destruct (x =? 0) eqn:E0; [apply Some_pair_inj in H; destruct H as [<- _]; destruct Hty; discriminate|].
+  bind_inv H. destruct (consume_number_token_ok b) as (m & Hm & Hx). rewrite E in Hm. apply Some_inj in Hm. subst m.
+  destruct (number_token_inv _ _ E) as (t & r & Hl & Hlt & Hnum); [lia|].
+  assert (Hsk : skipz x (b ++ [0]) = r) by (rewrite Hl, <- Hlt; apply skipz_len_app). rewrite Hsk in *.
+  destruct (0 <? x0) eqn:Ep.
+  - apply Some_pair_inj in H. destruct H as [<- Hn]. cbn [tok_shape].
+    unfold consume_byte in E1. bind_inv E1. apply Some_inj in E1. destruct (x1 =? 37) eqn:E37; [|lia].
+    destruct (peekz0_cons _ _ E2) as (r' & ->). assert (x1 = 37) by lia. subst x1.
+    exists t. split; [|exact Hnum].
+    change (t ++ 37 :: r') with (t ++ [37] ++ r') in Hl. rewrite app_assoc in Hl.
+    apply app_len_inj in Hl; [exact (proj1 Hl)|]. rewrite len_app. change (len [37]) with 1. lia.
+  - bind_inv H. destruct (0 <? x1); apply Some_pair_inj in H; destruct H as [<- Hn]; [destruct Hty; discriminate|]. cbn [tok_shape].
+    apply app_len_inj in Hl; [|lia]. rewrite (proj1 Hl). exact Hnum.
+Qed.
+
+(* --- unicode-range ------------------------------------------------------------------------------------------- *)
+Lemma urange_inv l n : consume_unicode_range l = Some n -> 0 < n -> exists t r, l = t ++ r /\ len t = n /\ ur_shape t.
+Proof.
+  unfold consume_unicode_range. intros H Hn. bind_inv H. destruct (peekz0_cons _ _ E) as (l1 & ->).
+  destruct (negb ((x =? 117) || (x =? 85))) eqn:Eu; [apply Some_inj in H; lia|]. apply negb_false_iff in Eu.
+  bind_inv H. rewrite peekz_1 in E0. destruct (peekz0_cons _ _ E0) as (l2 & ->).
+  destruct (negb (x0 =? 43)) eqn:Ep; [apply Some_inj in H; lia|]. apply negb_false_iff in Ep. assert (x0 = 43) by lia. subst x0.
+  rewrite skipz_2 in H. bind_inv H. rename x0 into k. destruct (scan_while_split _ _ _ E1) as (h & y & r & -> & Hlh & Hh & Hy).
+  assert (Hsk : skipz k (h ++ y :: r) = y :: r) by (rewrite <- Hlh; apply skipz_len_app). rewrite Hsk in H.
+  unfold consume_byte in H. rewrite peekz_0 in H. cbn [option_bind tl] in H. pose proof (len_nonneg h).
+  destruct (y =? 45) eqn:E45.
+  - change (0 <? 1) with true in H. cbv iota in H.
+    destruct ((k =? 0) || (6 <? k)) eqn:Ek; [apply Some_inj in H; lia|].
+    bind_inv H. destruct (scan_while_split _ _ _ E2) as (h2 & y2 & r2 & -> & Hlh2 & Hh2 & Hy2). pose proof (len_nonneg h2).
+    destruct ((x0 =? 0) || (6 <? x0)) eqn:Ek2; apply Some_inj in H; [lia|].
+    assert (y = 45) by lia. subst y.
+    exists (x :: 43 :: h ++ 45 :: h2), (y2 :: r2). split; [cbn [app]; rewrite <- app_assoc; reflexivity|].
+    split; [rewrite !len_cons, len_app, len_cons; lia|]. right. exists x, h, h2. repeat split; try assumption; lia.
+  - change (0 <? 0) with false in H. cbv iota in H.
+    bind_inv H. destruct (scan_while_split _ _ _ E2) as (q & y2 & r2 & Hq0 & Hlq & Hq & Hy2). pose proof (len_nonneg q).
+    destruct ((k + x0 =? 0) || (6 <? k + x0)) eqn:Ek; apply Some_inj in H; [lia|].
+    exists (x :: 43 :: h ++ q), (y2 :: r2). split; [cbn [app]; rewrite <- app_assoc, <- Hq0; reflexivity|].
+    split; [rewrite !len_cons, len_app; lia|]. left. exists x, h, q. repeat split; try assumption; lia.
+Qed.
+
+Lemma numeric_case b x ty : consume_numeric (b ++ [0]) = Some x -> Some (or_delim x) = Some (ty, len b) ->
+  b <> [] -> shaped ty = true -> tok_shape ty b.
+Proof.
+  destruct x as [t n]. intros E H Hne Hs. unfold or_delim in H. cbn [fst] in H.
+  destruct (consume_numeric_ty _ _ _ E) as [->|[->|[->| ->]]]; cbn [is_err] in H; apply Some_pair_inj in H; destruct H as [<- Hn].
+  - destruct b as [|c b']; [congruence|]. apply delim_shape, Hn.
+  - subst n. apply numeric_shape; [exact E|auto].
+  - subst n. apply numeric_shape; [exact E|auto].
+  - discriminate Hs.
+Qed.
+
 (* C07 (converse, for the shaped types): the scan of a token on its own bytes determines its shape *)
 Lemma scan_shape b ty : css_scan (b ++ [0]) = Some (ty, len b) -> b <> [] -> shaped ty = true -> tok_shape ty b.
 Proof.
@@ -137,7 +277,7 @@ Proof.
   { bind_inv H. free_case H. apply or_delim_free, (string_free _ _ E). }
   (* '.' and '+' *)
   destruct ((c =? 46) || (c =? 43)) eqn:Edp.
-  { bind_inv H. free_case H. apply or_delim_free, (numeric_free _ _ E). }
+  { bind_inv H. apply (numeric_case (c :: b') x ty E H Hne Hs). }
   (* '-' *)
   destruct (c =? 45) eqn:E45.
   { bind_inv H. destruct (0 <? x) eqn:Ecdc.
@@ -151,7 +291,7 @@ Proof.
     - bind_inv H. destruct (0 <? x0) eqn:Ecv; [res H Hn; discriminate Hs|].
       bind_inv H. destruct (negb (is_err (fst x1))) eqn:Eil.
       + free_case H. destruct (identlike_free _ _ E1) as [Hx|Hx]; [apply negb_true_iff in Eil; congruence|left; exact Hx].
-      + bind_inv H. free_case H. apply or_delim_free, (numeric_free _ _ E2). }
+      + bind_inv H. apply (numeric_case (c :: b') x2 ty E2 H Hne Hs). }
   (* '@' *)
   destruct (c =? 64) eqn:E64.
   { bind_inv H. free_case H. apply pos_tok_free. reflexivity. }
@@ -198,7 +338,10 @@ Proof.
   { bind_inv H. free_case H. apply or_delim_free, (identlike_free _ _ E). }
   (* 'u' 'U' *)
   destruct ((c =? 117) || (c =? 85)) eqn:Eu.
-  { bind_inv H. destruct (0 <? x); [res H Hn; discriminate Hs|].
+  { bind_inv H. destruct (0 <? x) eqn:Eur.
+    { res H Hn. destruct (urange_inv _ _ E) as (t & r & Hl & Hlt & Hsh); [lia|].
+      change (c :: b' ++ [0]) with ((c :: b') ++ [0]) in Hl. apply app_len_inj in Hl; [|lia].
+      cbn [tok_shape]. rewrite (proj1 Hl). exact Hsh. }
     bind_inv H. free_case H. apply or_delim_free, (identlike_free _ _ E0). }
   (* '|' *)
   destruct (c =? 124) eqn:E124.
@@ -218,7 +361,7 @@ Proof.
   { rewrite eofb_cons_sent in H. res H Hn. apply delim_shape, Hn. }
   (* anything else: a number or a name *)
   bind_inv H. destruct (negb (is_err (fst x))) eqn:En.
-  - free_case H. destruct (numeric_free _ _ E) as [Hx|Hx]; [apply negb_true_iff in En; congruence|left; exact Hx].
+  - apply (numeric_case (c :: b') x ty E); [|exact Hne|exact Hs]. unfold or_delim. apply negb_true_iff in En. rewrite En. exact H.
   - bind_inv H. free_case H. apply or_delim_free, (identlike_free _ _ E1).
 Qed.
 
